@@ -151,6 +151,9 @@ contract("statham.schema.validation.object:AdditionalProperties.error_message",
          requires=params_req({"__properties__": "isinstance({p}, Properties)"}),
          returns="is_str(result)", result_kind="str", kinds={"self.params['__properties__']": "Properties"}, props=["C10"])
 
+contract("statham.schema.exceptions:_display", requires="True", returns="is_str(result)", result_kind="str", props=["C10"],
+         note="repr(value), or a placeholder when repr raises ValueError (the interpreter's int-to-str digit limit is not modelled: bounded-checked in C10)")
+
 contract("statham.schema.exceptions:ValidationError.from_validator",
          requires=PROPERTY_OK, returns="True", result_cls="ValidationError", props=["C10"])
 
